@@ -61,6 +61,8 @@ def toLower(self: Obj("YowLayer"), data: Opaque):
     requires(not self.lock.held and self.lock.all_blocking)
     ensures(not self.lock.held and self.lock.all_blocking)
     ensures(n_events("lower.send") <= 1 and implies(is_none(self._YowLayer__lower), n_events("lower.send") == 0))
+    # with a layer below: the data goes to it, exactly once, unchanged
+    ensures(implies(not is_none(self._YowLayer__lower), n_events("lower.send") == 1 and same_obj(event_arg("lower.send", 0, 1), data)))
     # whatever the layer below raises reaches the caller, and the lock is free again
     propagates("lower.send", ensures=not self.lock.held and n_events("lower.send") == 1)
 
